@@ -200,6 +200,12 @@ def run(rep, tier, rng):
             fail("state-leaks-between-parses", "after TreeBuilder refused %r, a NEW TreeBuilder on the valid body %r -> %r" % (m[:200], cur["base"][:200], again),
                  text=m, then=cur["base"], expected=cur["want"], observed=again)
 
+    door_names = list(S.DOORS)
+
+    def next_door():
+        cur["door"] = cur.get("door", 0) + 1
+        return door_names[cur["door"] % len(door_names)]
+
     def judge(kind, m, via_tree):
         """every mutant the reference reader finds improperly nested must raise (or at least not return a tree)"""
         out = S.impl_parse(P, m)
@@ -217,11 +223,11 @@ def run(rep, tier, rng):
             if out[0] == "ok" and out[1] is not None and out[1] != ref_tree:
                 fail("text-after-cdata-dropped", "TreeBuilder accepted %r and silently dropped the text after the CDATA section: returned %r" % (m[:300], out[1] if len(m) < 300 else "a tree"),
                      text=m, kind=kind, observed=out, acceptable=["an error", ref_tree])
-            if via_tree and m.isascii() and "\r" not in m:
-                o2 = S.impl_ofxtree(P, m, 102)
-                if o2[0] == "ok" and o2[1] is not None and o2[1] != ref_tree:
-                    fail("text-after-cdata-dropped", "OFXTree.parse accepted header+%r and silently dropped the text after the CDATA section" % (m[:300],),
-                         text=m, kind=kind, via="OFXTree", observed=o2, acceptable=["an error", ref_tree])
+            for door in ("v2", next_door()):
+                o2 = S.impl_front(P, door, m)
+                if o2 is not None and o2[0] == "ok" and o2[1] is not None and o2[1] != ref_tree:
+                    fail("text-after-cdata-dropped", "OFXTree.parse(%s header + %r) silently dropped the text after the CDATA section" % (door, m[:300]),
+                         text=m, kind=kind, door=door, observed=o2, acceptable=["an error", ref_tree])
             return
         rep.count(m, nontrivial=(improper is not None), kind=kind if improper is not None else kind + ":still-valid")
         if improper is None:
@@ -238,11 +244,20 @@ def run(rep, tier, rng):
         if out[0] == "ok" and out[1] is not None:
             fail("tree-returned:" + kind, "TreeBuilder accepted %r (%s; reference reader: %s) and returned %r" % (m[:300], kind, improper, out[1] if len(m) < 300 else "a tree"),
                  text=m, kind=kind, observed=out)
-        if (via_tree or "lookalike" in kind) and "\r" not in m:
-            o2 = S.impl_ofxtree(P, m, 102)
-            rep.count(("ofxtree", m), nontrivial=False, kind="via-OFXTree.parse")
+        # the front door: the same refusal is due from OFXTree.parse on a FILE with that body, under a v1 header (any CHARSET) and under a v2 header;
+        # mutants that are well-formed XML although improperly nested OFX (text after an end tag, look-alike tags) always take the v2 door too
+        doors = []
+        if via_tree or "lookalike" in kind or kind in ("stray-text", "second-root", "endtag-duplicated"):
+            doors.append(next_door())
+        if "lookalike" in kind or kind == "stray-text" or (via_tree and kind in ("second-root", "stray-endtag", "endtag-renamed")):
+            doors.append("v2")
+        for door in dict.fromkeys(doors):
+            o2 = S.impl_front(P, door, m)
+            if o2 is None:
+                continue
+            rep.count(("front", door, m), nontrivial=False, kind="front-door:" + door)
             if o2[0] == "ok" and o2[1] is not None:
-                fail("tree-returned:" + kind, "OFXTree.parse accepted header+%r (%s) and returned a tree" % (m[:300], kind), text=m, kind=kind, via="OFXTree", observed=o2)
+                fail("tree-returned:" + kind, "OFXTree.parse(%s header + %r) (%s) returned a tree" % (door, m[:300], kind), text=m, kind=kind, door=door, observed=o2)
 
     probe, probe_tree = "<OFX><A>1</A><B><C>2</B></OFX>", ("OFX", None, [("A", "1", []), ("B", None, [("C", "2", [])])])
     if S.impl_parse(P, probe) == ("ok", probe_tree):
@@ -255,10 +270,10 @@ def run(rep, tier, rng):
     docs = []
     small = [d for d in S.small_docs(max_nodes=3) if d[0] == "agg"]
     for d in (small if thorough else rng.sample(small, 30)):
-        docs.append((d, 200 if thorough else 45, 6))
+        docs.append((d, 200 if thorough else 28, 6))
     for _ in range(900 if thorough else 26):
-        docs.append((S.rand_doc(rng, rng.randint(3, 16), rng.randint(1, 5)), 120 if thorough else 24, 8 if thorough else 4))
-    for _ in range(100 if thorough else 4):
+        docs.append((S.rand_doc(rng, rng.randint(3, 16), rng.randint(1, 5)), 120 if thorough else 14, 8 if thorough else 4))
+    for _ in range(100 if thorough else 3):
         docs.append((S.rand_doc(rng, rng.randint(40, 120), 10, tags=rng.sample(S.TAG_POOL, 6)), 40, 12 if thorough else 5))
     ofx_tags = ["STMTRS", "BANKTRANLIST", "STMTTRN", "SIGNONMSGSRSV1", "INV401K", "LINK", "SONRS", "KIND"]
     for _ in range(60 if thorough else 5):      # names with the letters that have non-ASCII case-folding partners (S, I, K)
@@ -293,8 +308,8 @@ def run(rep, tier, rng):
                 "boundary, stray text after end tags and aggregate start tags, stray text directly after the CDATA section of a data element with or without end tag "
                 "(there the parser must refuse or keep the text, never drop it), a second top-level element; after refused mutants the valid body is parsed "
                 "again with a new TreeBuilder and must still give its tree. A mutant is in the property's domain when an independent "
-                "reference reader of the wire syntax finds it improperly nested; then TreeBuilder.feed/close (and OFXTree.parse on a ninth of them) must not "
-                "return a tree. All mutants also go to the Gallina model (outcome class and tree compared). non-trivial = improper mutant")
+                "reference reader of the wire syntax finds it improperly nested; then TreeBuilder.feed/close, and OFXTree.parse on a FILE with that body (v1 header with CHARSET 1252 / ISO-8859-1 / NONE "
+                "in turn, v2 header for every mutant that is well-formed XML: stray text, look-alike tags; a ninth of the others) must not return a tree. All mutants also go to the Gallina model (outcome class and tree compared). non-trivial = improper mutant")
     rep.extra["observations"] = {OBS_KEY: {"count": len(obs), "example": obs[0] if obs else None,
                                            "note": "a CDATA section separated from its start tag by an inserted end tag is skipped silently (finditer skips unmatched markup); "
                                                    "outside the token-boundary fault classes; see notes/status/C08.md"}}
@@ -306,7 +321,7 @@ def run(rep, tier, rng):
     big_t = [t for t in texts if len(t) > 400]
     S.correspond(rep, "mutants", variant, small_t, P, shard=1500 if thorough else 1100)
     if big_t:
-        S.correspond(rep, "mutants-large", variant, big_t, P, shard=40)
+        S.correspond(rep, "mutants-large", variant, big_t, P, shard=40 if thorough else 12)
 
 
 def replay(obj):
@@ -314,8 +329,12 @@ def replay(obj):
     import ofxtools.Parser as P
     r = obj["replay"]
     s = r["text"]
-    out = S.impl_ofxtree(P, s) if r.get("via") == "OFXTree" else S.impl_parse(P, s)
-    print("replay %s on %r -> %r" % ("OFXTree.parse" if r.get("via") == "OFXTree" else "TreeBuilder.feed/close", s, out))
+    if "door" in r:
+        out = S.impl_front(P, r["door"], s)
+        print("replay OFXTree.parse(%s header + %r) -> %r" % (r["door"], s, out))
+    else:
+        out = S.impl_ofxtree(P, s) if r.get("via") == "OFXTree" else S.impl_parse(P, s)
+        print("replay %s on %r -> %r" % ("OFXTree.parse" if r.get("via") == "OFXTree" else "TreeBuilder.feed/close", s, out))
     if "then" in r:
         again = S.impl_parse(P, r["then"])
         want = S.tuple_tree(r["expected"])
